@@ -12,6 +12,12 @@ def mkKey (cx : PCtx) (req : List String) (n : String) : Key :=
 def synthKey (cx : PCtx) (n : String) : Key :=
   { name := attrName cx.ci cx.reserved n, required := true, source := some n }
 
+theorem src_mkKey (cx : PCtx) (req : List String) (n : String) (h : n ≠ "") : (mkKey cx req n).src = n := by
+  simp [mkKey, Key.src, h]
+
+theorem src_synthKey (cx : PCtx) (n : String) (h : n ≠ "") : (synthKey cx n).src = n := by
+  simp [synthKey, Key.src, h]
+
 theorem propsInsert_fresh (d : List (Key × Elem)) (k : Key) (e : Elem)
     (h : ∀ p ∈ d, p.1.name ≠ k.name) : propsInsert d k e = d ++ [(k, e)] := by
   induction d with
